@@ -211,8 +211,13 @@ func runAtStart(c *Case, r *mon.Rec, rng *rand.Rand) {
 	ctx, cancel := context.WithCancel(context.Background())
 	defer cancel()
 	served := make(chan error, 1)
+	before := !inCallback && rng.Intn(3) == 0
+	if before {
+		doShutdown() // Shutdown has returned before Serve is called at all: only Serve can close the listener it is given
+		r.Cover("shutdown", "at-start-before-serve")
+	}
 	go func() { served <- s.Serve(ctx, l, srvx.DevHandler(dev, nil)) }()
-	if !inCallback {
+	if !inCallback && !before {
 		if d := rng.Intn(4); d > 0 {
 			time.Sleep(time.Duration(d*30) * time.Microsecond)
 		}
@@ -254,6 +259,12 @@ func runAtStart(c *Case, r *mon.Rec, rng *rand.Rand) {
 	if cli, _, err := l.Dial(300 * time.Millisecond); err == nil {
 		cli.Close()
 		r.Violate(c, "accepts-after-shutdown", a, "a connection was accepted after Shutdown returned nil and Serve returned")
+	}
+	// whichever of the two got to the listener first, it is closed now (an open listener is a bound port: the kernel
+	// keeps completing handshakes on it even though nobody calls Accept)
+	r.Eval(1)
+	if !l.Closed() {
+		r.Violate(c, "listener-left-open-after-shutdown", a, fmt.Sprintf("Shutdown (overlapping the start of Serve) returned nil and Serve returned the server-closed error, but the listener was never closed (Close calls: %d)", l.Closes.Load()))
 	}
 }
 
@@ -569,6 +580,8 @@ func run(ci any, r *mon.Rec) {
 		if kc, _, err := sc.l.Dial(300 * time.Millisecond); err == nil {
 			kc.Close()
 			r.Violate(c, "accepts-after-shutdown", a, ctxs+": a new connection was accepted after Shutdown returned nil")
+		} else if served && !sc.l.Closed() {
+			r.Violate(c, "listener-left-open-after-shutdown", a, ctxs+": Shutdown returned nil and Serve returned, but the listener was never closed")
 		}
 		sc.mu.Lock()
 		for _, rr := range sc.reqs {
@@ -581,6 +594,35 @@ func run(ci any, r *mon.Rec) {
 				r.Violate(c, "inflight-reply-lost", a, fmt.Sprintf("%s: request tid %d: handler started (stamp %d) before Shutdown was called (stamp %d), Shutdown returned nil (stamp %d) but the client did not get its reply: %s", ctxs, rr.tid, st, shutCall, shutRet, rr.err))
 			case st < shutRet:
 				r.Violate(c, "inflight-toctou", mon.Attrs{"terminal": c.Terminal, "yield": c.Yield}, fmt.Sprintf("%s: request tid %d: handler started (stamp %d) after Shutdown was called (%d) and before it returned nil (%d); the connection was closed under it: %s", ctxs, rr.tid, st, shutCall, shutRet, rr.err))
+			}
+		}
+		// ... and had received it by the time Shutdown returned: the server-side write of the whole reply is stamped
+		// before the return of Shutdown (writes are synchronous on this transport, so written = received)
+		for i := range plans {
+			rc := results[i].rc
+			if rc == nil || results[i].rejected {
+				continue
+			}
+			owed, last := 0, -1
+			for k := 0; k < plans[i].nreq; k++ {
+				if st, ok := sc.hstart[uint16(i*100+k+1)]; ok && st < shutCall {
+					last = k
+				}
+			}
+			for k := 0; k <= last; k++ {
+				owed += len(plans[i].replies[k])
+			}
+			written := 0
+			for _, e := range rc.EventsCopy() {
+				if e.Op == "write" && e.Seq < shutRet {
+					written += e.N
+				}
+			}
+			r.Eval(1)
+			if written < owed {
+				r.Violate(c, "inflight-reply-after-shutdown-returned", a, fmt.Sprintf("%s: client %d: handler of request %d started (stamp %d) before Shutdown was called (%d); when Shutdown returned nil (%d) the server had written %d of the %d reply bytes owed on that connection", ctxs, i, last, sc.hstart[uint16(i*100+last+1)], shutCall, shutRet, written, owed))
+			} else if last >= 0 {
+				r.Cover("shutdown", "owed-replies-written-before-return")
 			}
 		}
 		sc.mu.Unlock()
